@@ -27,8 +27,10 @@ LEVEL_TEXT = {
     "C06": "bounded model checking of handle()'s containment logic around the parser (reduced claim): a message the parser "
            "rejects is neither dispatched nor answered, the requests before it are, and handle() returns Err; serde_json's own "
            "robustness and the listen() worker are outside",
-    "C11": "bounded model checking of duplicate detection and order of appearance in IDL::from_token (reduced claim: "
-           "the grammar itself is out of reach)",
+    "C11": "SMT-decided language equality, on bounded ASCII text shapes, between the real peg grammar (its source text "
+           "under rust-peg's recognition semantics, re-encoded from /repo on every run) and a fixed reference grammar "
+           "read declaratively; reduced claim: syntactic acceptance, not the duplicate-name rule's every input nor the "
+           "contents of the resulting structure",
     "C12": "bounded model checking of the syntax-error position arithmetic (line lookup, column) over all 4-byte texts "
            "and error offsets (reduced claim: totality of the grammar is out of reach)",
     "C14": "bounded model checking of one inductive step of the acceptor (real ThreadPool::execute) from every pool state "
@@ -39,6 +41,15 @@ LEVEL_TEXT = {
     "C17": "bounded model checking of the real Serialize / Deserialize impls at the serde data-model level: what is "
            "emitted (member names, omitted optionals, string-set shape) and that feeding it back under the strict MapAccess "
            "protocol yields the original value",
+}
+
+
+ENGINE_OF = {"C11": "smt-grammar"}
+TECHNIQUE = {
+    "C11": "z3 (SMT, QF_BV) over a bounded encoding generated from the peg grammar source in /repo: for every text length "
+           "of every registered shape the query `real grammar and reference grammar disagree on some ASCII text` must be "
+           "unsat; a model is a concrete text, replayed through the real IDL::try_from natively before it is reported. "
+           "The translator is validated against the real parser on a corpus on every run",
 }
 
 
@@ -60,11 +71,18 @@ def main():
         "engines": [{
             "name": "kani-overlay",
             "path": "/verif/check",
-            "serves_properties": sorted(registry.CHECKS.keys()),
+            "serves_properties": sorted(k for k in registry.CHECKS if ENGINE_OF.get(k, "kani-overlay") == "kani-overlay"),
             "kind_free_text": "Kani 0.68 / CBMC 6.11 (CaDiCaL) bounded model checking of the real functions, compiled from a "
                               "per-run copy of /repo with harness modules appended; environment replaced by stubs (-Z stubbing); "
                               "counterexamples are replayed natively (no stubs, real serde_json / sockets / threads) before "
                               "they are reported",
+        }, {
+            "name": "smt-grammar",
+            "path": "/verif/check",
+            "serves_properties": sorted(k for k in registry.CHECKS if ENGINE_OF.get(k) == "smt-grammar"),
+            "kind_free_text": "z3 5.1 (python3-vt) on an encoder written for this repository (smt/): the rust-peg grammar text "
+                              "of a per-run copy of /repo -> bounded PEG recognition tables over symbolic ASCII bytes, compared "
+                              "with a fixed reference grammar; models replayed natively through the real parser",
         }],
         "checks": [],
         "notes": "exit 0 = every harness of the tier reached SUCCESSFUL with all covers satisfied; exit 1 = a natively "
@@ -81,15 +99,15 @@ def main():
             "thorough_cmd": "./check %s --tier thorough" % pid,
             "evidence_file": "/verif/evidence/%s.json" % pid,
             "replay_cmd_template": "./check %s --replay {path}" % pid,
-            "engine": "kani-overlay",
+            "engine": ENGINE_OF.get(pid, "kani-overlay"),
             "level_claimed": {
                 "category": "model_checking",
                 "text": LEVEL_TEXT.get(pid, "bounded model checking of the real functions"),
                 "design_ref": "DESIGN.md section " + spec.get("design_ref", "3"),
             },
             "level_note": "; ".join(spec.get("assumptions", []))[:1800],
-            "technique": "Kani/CBMC bounded model checking (SAT) of the compiled Rust functions over symbolic inputs, "
-                         "environment stubbed, counterexamples replayed natively",
+            "technique": TECHNIQUE.get(pid, "Kani/CBMC bounded model checking (SAT) of the compiled Rust functions over "
+                                      "symbolic inputs, environment stubbed, counterexamples replayed natively"),
         })
     claimed = set(registry.CHECKS.keys())
     for p in props:
